@@ -84,7 +84,7 @@ def _char_eq(e):
 
 def _one(cands, what, fn):
     if len(cands) != 1:
-        raise AnalysisBroken('TAB9: %s: cannot identify %s (candidates %s)' % (fn.name, what, sorted(cands)))
+        raise AnalysisBroken('TAB9: %s: cannot identify %s (candidates %s)' % (fn.name, what, sorted(cands, key=repr)))
     return next(iter(cands))
 
 
@@ -145,16 +145,24 @@ def tab9(units, R):
     segs = bp.loop_segments(ex)
     src = _one(bp.reading_cursors(segs), 'the string cursor', fn)
     rets = [sg for sg in ex.segments if sg.end[0] == 'return' and sg.end_node.expr is not None]
-    names = {strip_casts(sg.end_node.expr).get('n') for sg in rets if strip_casts(sg.end_node.expr).get('k') == 'ref'}
-    counter = _one({n for n in names if n}, 'the returned counter', fn)
+    def summands(e):
+        e = strip_casts(e)
+        if e.get('k') == 'ref':
+            return [e['n']]
+        if e.get('k') == 'bin' and e['op'] == '+':
+            l, r = summands(e['l']), summands(e['r'])
+            return None if (l is None or r is None) else l + r
+        return None
+    names = {tuple(sorted(summands(sg.end_node.expr))) for sg in rets if summands(sg.end_node.expr)}
+    counters = _one(names, 'the returned counter (a counter or a sum of counters)', fn)
     bad = []
     for b in range(1, 256):
         ss = _segments_for(segs, src, b)
         if not ss:
             raise AnalysisBroken('TAB9: %s: no path for byte %d' % (fn.name, b))
         for sg in ss:
-            v = sg.vals.get(counter)
-            got = v[1] if (v is not None and v[0] == 'd' and sg.end[0] == 'head' and sg.adv(src) == 1) else None
+            vs = [sg.vals.get(c_) for c_ in counters]
+            got = sum(v[1] for v in vs) if (all(v is not None and v[0] == 'd' for v in vs) and sg.end[0] == 'head' and sg.adv(src) == 1) else None
             if {got} != enc_len[b] or got != len(_rfc6901_encoding(b)):
                 bad.append((b, got, sorted(enc_len[b], key=repr)))
     extracted += 1
